@@ -26,6 +26,11 @@ POOL = {
     13: ([(10, 1), (2, 0)], ['A', '']),  # spends 10:1 and stable
     14: ([(2, 0)], ['OP_RETURN', 'B']),  # conflicts with 13 on (2,0)
 }
+SAMPLE_POOL = sorted(POOL)      # what valid_histories samples from (kept fixed so that seeds stay comparable)
+# a wide transaction: 257 outputs, of which vout 1, 2 and 256 pay A (the rest are non-standard scripts): the stable index orders
+# vout by its little-endian bytes (256 < 1 < 2), see C06
+WIDE = 15
+POOL[WIDE] = ([(1, 1)], ['A' if v in (1, 2, 256) else '' for v in range(257)])
 
 
 def coinbase_id(block):
@@ -66,7 +71,7 @@ def valid_histories(parents, r, count):
             spent = set(i for t in included for i in POOL[t][0])
             created = set((t, k) for t in included for k in range(len(POOL[t][1]))) | set((s[0], s[1]) for s in STABLE)
             mine = []
-            for t in r.sample(sorted(POOL), len(POOL)):
+            for t in r.sample(SAMPLE_POOL, len(SAMPLE_POOL)):
                 if r.random() < 0.45:
                     continue
                 if t in included or t in mine:
@@ -85,6 +90,43 @@ def valid_histories(parents, r, count):
     return out
 
 
+def enumerate_histories(parents, cap=None):
+    """every transaction-valid assignment of pool transactions (SAMPLE_POOL, each block's transactions in pool-id order, which
+    respects the spend dependencies) to the blocks of the tree, in a fixed order; at most `cap` of them, evenly spread"""
+    ts = btc.TreeScenario(parents)
+    out = []
+
+    def rec(b, content):
+        if b > ts.n:
+            out.append(History(parents, content))
+            return
+        chain = ts.path(b)[:-1]
+        included = [t for a in chain for t in content.get(a, [])]
+        spent0 = set(i for t in included for i in POOL[t][0])
+        created0 = set((t, k) for t in included for k in range(len(POOL[t][1]))) | set((s[0], s[1]) for s in STABLE)
+
+        def pick(idx, mine):
+            if idx == len(SAMPLE_POOL):
+                c2 = dict(content)
+                c2[b] = list(mine)
+                rec(b + 1, c2)
+                return
+            t = SAMPLE_POOL[idx]
+            pick(idx + 1, mine)
+            if t in included:
+                return
+            avail = created0 | set((m, k) for m in mine for k in range(len(POOL[m][1])))
+            myspent = spent0 | set(i for m in mine for i in POOL[m][0])
+            if all(i in avail and i not in myspent for i in POOL[t][0]):
+                pick(idx + 1, mine + [t])
+        pick(0, [])
+    rec(1, {})
+    if cap is not None and len(out) > cap:
+        step = len(out) / float(cap)
+        out = [out[int(i * step)] for i in range(cap)]
+    return out
+
+
 HANDCRAFTED = [
     # same transaction confirmed at different heights on competing forks (10 in block 2 at height+1, and in block 4 at height+2)
     ([1, 1, 3], {2: [10], 3: [], 4: [10]}),
@@ -93,6 +135,12 @@ HANDCRAFTED = [
     # same-block create-and-spend, then spend across a fork
     ([1, 2, 2], {1: [], 2: [10, 12], 3: [13], 4: [11]}),
     ([1], {1: [11], 2: [10, 12, 13]}),
+    # the same transaction on two forks, and the later-arriving fork also spends its output in the same block
+    ([1, 1], {1: [], 2: [10], 3: [10, 12]}),
+    # both forks carry the same create-and-spend pair; a descendant spends across
+    ([1, 1, 2], {1: [], 2: [10, 12], 3: [10, 12], 4: [13]}),
+    # shared transaction first seen with its same-block spend, then alone on the competing fork, forks of unequal length
+    ([1, 1, 3, 4], {1: [], 2: [10, 12], 3: [10], 4: [13], 5: [11]}),
 ]
 
 
@@ -107,7 +155,7 @@ class World:
         us = self.us = led.utxo_set(self.sh)
         self.val = {}
         for k, (t, v, kind, below) in enumerate(STABLE):
-            val = it.fresh('sv%d' % k, 'u64', 1, 1 << 50)
+            val = it.fresh('sv%d' % k, 'u64', 0, 1 << 50)
             self.val[(t, v)] = val.t
             led.seed_utxo(us, t, v, val, kind, SInt(self.sh.t - below, 'u32'))
         self.blocks = {}
@@ -117,7 +165,7 @@ class World:
                 outs = []
                 for oi, kind in enumerate(kinds):
                     if (tid, oi) not in self.val:
-                        self.val[(tid, oi)] = it.fresh('v%d_%d' % (tid, oi), 'u64', 1, 1 << 50).t
+                        self.val[(tid, oi)] = it.fresh('v%d_%d' % (tid, oi), 'u64', 0, 1 << 50).t
                     outs.append((SInt(self.val[(tid, oi)], 'u64'), kind))
                 txs.append(led.tx(tid, ins, outs))
             self.blocks[b] = led.block(b, ts.par.get(b, 0), txs)
@@ -203,10 +251,10 @@ class Oracle:
         return u
 
     def address_view(self, tip, addr, upto=None):
-        """[(outpoint, value, height offset)] sorted by height descending, then outpoint"""
+        """[(outpoint, value, height offset)] sorted by height descending, then outpoint (txid, vout little-endian bytes)"""
         u = self.utxos_at(tip, upto)
         rows = [(op, v, h) for op, (v, h, kind) in u.items() if kind == addr]
-        rows.sort(key=lambda x: (-x[2], x[0]))
+        rows.sort(key=lambda x: (-x[2], x[0][0], x[0][1].to_bytes(4, 'little')))     # outpoint order = order of its byte encoding
         return rows
 
     def refcounts(self, present):
